@@ -1,21 +1,330 @@
-"""C02 — reading keeps every row or fails loudly: sidecar contracts."""
+"""C02 — reading keeps every row or fails loudly: sidecar contracts.
+
+The file is ABSTRACT: a source `f` (an int id) delivers NL(f) lines LINE(f, k); reading line k may instead fail to
+decode (DECERR(f, k)).  Lines, regex groups and derived strings are opaque string ids (class AStr); what the regexes
+/ str methods / int() / float() say about them are uninterpreted functions:
+
+    RE_HIT(method+pattern, s)   the compiled pattern's search/match accepts s       (is_row / is_comment)
+    IS_BLANK(s)                 s.isspace()
+    GRP(pattern, s, g)          group g of that match
+    INT_OK/INT_OF, FLT_OK/FLT_OF   int(s) / float(s): succeeds?, value
+    LEN, DROP, RMSUF, STARTS    len(s), s[n:], s.removesuffix(t), s.startswith(t)
+
+so the theorem proved about `parse_swc` holds for EVERY interpretation of them ("for any line grammar"): the table
+has exactly one entry per row line, in file order, each field the conversion of the matching group; comments are the
+comment lines (minus the writer's column header) in order; any other line / failed conversion / decode error leaves
+through ValueError; a normal return consumed and classified every line; columns are never unevenly filled.
+"""
+import re
+
 import z3
 
+from pyvc import models as M
+from pyvc.engine import ProgExc, Unsupported
+from pyvc.models import FmtPiece, SymStr
 from pyvc.spec import Registry
-from pyvc.values import Opaque, Sym, fresh_name
+from pyvc.values import NativeMethod, Obj, Opaque, PList, SArr, Sym, fresh_name, to_z3, zint
+
+DEPENDS = ["C18"]  # read_swc relies on the verified contracts of reset_index_ / mark_roots_as_somas_
 
 FILE = "swcgeom/utils/file.py"
 IO = "swcgeom/core/swc_utils/io.py"
+TREE = "swcgeom/core/tree.py"
+NORM = "swcgeom/core/swc_utils/normalizer.py"
+CHK = "swcgeom/core/swc_utils/checker.py"
 
-CLOSED = z3.Function("closed_after", z3.IntSort(), z3.BoolSort())
+_I, _B, _R, _S = z3.IntSort(), z3.BoolSort(), z3.RealSort(), z3.StringSort()
+CLOSED = z3.Function("closed_after", _I, _B)
+
+NL = z3.Function("n_lines", _I, _I)
+LINE = z3.Function("line", _I, _I, _I)
+DECERR = z3.Function("decode_error_at", _I, _I, _B)
+RE_HIT = z3.Function("re_hit", _S, _I, _B)
+GRP = z3.Function("re_group", _S, _I, _I, _I)
+IS_BLANK = z3.Function("is_blank", _I, _B)
+INT_OK = z3.Function("int_ok", _I, _B)
+INT_OF = z3.Function("int_of", _I, _I)
+FLT_OK = z3.Function("float_ok", _I, _B)
+FLT_OF = z3.Function("float_of", _I, _R)
+LEN = z3.Function("strlen", _I, _I)
+DROP = z3.Function("drop_prefix", _I, _I, _I)
+RMSUF = z3.Function("removesuffix", _I, _S, _I)
+STARTS = z3.Function("startswith", _I, _S, _B)
+# ghost counters / enumerations (defined by their unfolding, see ghost_axioms)
+RCNT = z3.Function("rows_before", _I, _I, _I)
+RLINE = z3.Function("row_line", _I, _I, _I)
+CCNT = z3.Function("comments_before", _I, _I, _I)
+CLINE = z3.Function("comment_line", _I, _I, _I)
+UNREADABLE = z3.Function("source_unreadable", _I, _B)
+
+# reference grammar, written from the SWC format / property statement (NOT read from the source)
+REF_FLOAT = r"([+-]?(?:\d+(?:[.]\d*)?(?:[eE][+-]?\d+)?|[.]\d+(?:[eE][+-]?\d+)?))"
+REF_COMMENT = r"^\s*#"
 
 
+def ref_row_pattern(n_extra):
+    cols = [r"([0-9]+)", r"([0-9]+)", REF_FLOAT, REF_FLOAT, REF_FLOAT, REF_FLOAT, r"(-?[0-9]+)"] + [REF_FLOAT] * n_extra
+    return r"^\s*" + r"\s+".join(cols) + r"(?=\s|$)\s*([\s+\-.0-9eE]*)$"
+
+
+def tag(method, pattern):
+    return z3.StringVal(method + ":" + pattern)
+
+
+ASTR_MODEL = ("str-model: lines/tokens are abstract strings; isspace, removesuffix, startswith, s[n:], len are uninterpreted functions of them; "
+              "truthiness = 'is not the empty string' (id 0)")
+
+
+class AStr(Sym):
+    """an abstract string (opaque id of kind 'ref'); id 0 is the empty string (truthiness)"""
+
+    __slots__ = ()
+
+    def __init__(self, z):
+        Sym.__init__(self, z, "ref")
+
+    def __pyvc_getattr__(self, eng, name):
+        z = self.z
+        eng.assumptions.add(ASTR_MODEL)
+        if name == "isspace":
+            return NativeMethod(lambda e, r, a, k: e.sbool(IS_BLANK(z)), self, name)
+        if name == "removesuffix":
+            def rm(e, r, a, k):
+                if len(a) != 1 or not isinstance(a[0], str):
+                    raise Unsupported("removesuffix of an abstract string with a non-literal argument")
+                return AStr(RMSUF(z, z3.StringVal(a[0])))
+            return NativeMethod(rm, self, name)
+        if name == "startswith":
+            def sw(e, r, a, k):
+                if len(a) != 1 or not isinstance(a[0], str):
+                    raise Unsupported("startswith of an abstract string with a non-literal argument")
+                return e.sbool(STARTS(z, z3.StringVal(a[0])))
+            return NativeMethod(sw, self, name)
+        raise Unsupported(f"str.{name} of an abstract string has no model")
+
+    def __pyvc_getitem__(self, eng, idx):
+        eng.assumptions.add(ASTR_MODEL)
+        if isinstance(idx, slice) and idx.stop is None and idx.step is None and idx.start is not None:
+            return AStr(DROP(self.z, to_z3(idx.start, "int")))
+        raise Unsupported("only s[n:] is modelled on an abstract string")
+
+
+class AMatch:
+    """match object of a modelled regex on an abstract string"""
+
+    def __init__(self, ptag, s):
+        self.ptag, self.s = ptag, s
+
+    def __pyvc_getattr__(self, eng, name):
+        if name == "group":
+            def group(e, r, a, k):
+                g = a[0] if a else 0
+                return AStr(GRP(self.ptag, self.s.z, to_z3(g, "int")))
+            return NativeMethod(group, self, name)
+        raise Unsupported(f"match.{name} on an abstract string")
+
+
+def _pattern_method(pat, method):
+    native = getattr(pat, method)
+
+    def model(eng, args, kwargs):
+        if len(args) == 1 and isinstance(args[0], AStr):
+            eng.assumptions.add("re-model: pattern.search/match on an abstract line = uninterpreted predicate re_hit(method:pattern, line); groups = re_group(...)")
+            t = tag(method, pat.pattern)
+            if eng.branch(eng.sbool(RE_HIT(t, args[0].z))):
+                return AMatch(t, args[0])
+            return None
+        if M.all_concrete(args, kwargs):
+            return native(*[M.unwrap(a) for a in args], **kwargs)
+        raise Unsupported("regex applied to a structured string")
+
+    return model
+
+
+def _register_pattern(pat):
+    for m in ("search", "match", "fullmatch"):
+        M.EXTRA_MODELS[getattr(pat, m)] = _pattern_method(pat, m)
+
+
+def _re_compile(eng, args, kwargs):
+    if not M.all_concrete(args, kwargs):
+        raise Unsupported("re.compile of a symbolic pattern")
+    pat = re.compile(*args, **kwargs)
+    _register_pattern(pat)  # `re` caches compiled patterns: the same text gives the same object
+    if (eng.cur_key or "").endswith(":parse_swc") and not eng.inline_stack and not eng.spec_mode:
+        # is_row in the contract means "matches the SWC line grammar written in this file"; the carrier's own pattern must be it
+        ex = eng.visible_vars().get("extras")
+        n_extra = len(ex.items) if isinstance(ex, PList) and ex.items is not None else 0
+        eng.prove("parse_swc/regex/row-pattern-is-the-swc-line-grammar", pat.pattern == ref_row_pattern(n_extra), "definition")
+    return pat
+
+
+M.EXTRA_MODELS[re.compile] = _re_compile
+
+
+def _int_model(eng, args, kwargs):
+    if len(args) == 1 and isinstance(args[0], AStr):
+        eng.assumptions.add("int()/float() of an abstract token: uninterpreted value, may raise ValueError (uninterpreted success predicate)")
+        if not eng.branch(eng.sbool(INT_OK(args[0].z))):
+            raise ProgExc(ValueError, "invalid literal for int()")
+        return Sym(INT_OF(args[0].z), "int")
+    return M.BUILTIN_MODELS[int](eng, args, kwargs)
+
+
+def _float_model(eng, args, kwargs):
+    if len(args) == 1 and isinstance(args[0], AStr):
+        eng.assumptions.add("int()/float() of an abstract token: uninterpreted value, may raise ValueError (uninterpreted success predicate)")
+        if not eng.branch(eng.sbool(FLT_OK(args[0].z))):
+            raise ProgExc(ValueError, "could not convert string to float")
+        return Sym(FLT_OF(args[0].z), "real")
+    return M.BUILTIN_MODELS[float](eng, args, kwargs)
+
+
+def _len_model(eng, args, kwargs):
+    if len(args) == 1 and isinstance(args[0], AStr):
+        z = LEN(args[0].z)
+        eng.assume(z >= 0)
+        return Sym(z, "int")
+    return M.BUILTIN_MODELS[len](eng, args, kwargs)
+
+
+M.EXTRA_MODELS[int] = _int_model
+M.EXTRA_MODELS[float] = _float_model
+M.EXTRA_MODELS[len] = _len_model
+
+
+def _df_from_dict(eng, args, kwargs):
+    """pd.DataFrame.from_dict({name: list}): one column per key; pandas refuses columns of different lengths
+    (ValueError 'All arrays must be of the same length') -- here a named obligation."""
+    from pyvc.npmodels import DFrame
+
+    (d,) = args
+    if kwargs or d.items is None:
+        raise Unsupported("DataFrame.from_dict form")
+    eng.assumptions.add("pandas-model: DataFrame.from_dict({name: list}) has one column per key holding the list's values; needs equally long lists")
+    cols, n0 = {}, None
+    for kname, lst in d.items.items():
+        if not isinstance(lst, PList):
+            raise Unsupported("DataFrame.from_dict column value")
+        if lst.items is not None:
+            if lst.items:
+                raise Unsupported("DataFrame.from_dict of a concrete non-empty list")
+            n, arr, kind = 0, z3.K(_I, z3.IntVal(0)), "int"
+        else:
+            n, arr, kind = lst.n, lst.cols[0], lst.kinds[0]
+        if n0 is None:
+            n0 = n
+        else:
+            ok = zint(n) == zint(n0)
+            if not eng.spec_mode:
+                fn = (eng.cur_key or "?").split(":")[-1]
+                eng.prove(f"{fn}/safety/table-columns-equally-long", ok, "safety", "DataFrame.from_dict")
+        cols[kname] = SArr(arr, n0 if n0 is not None else n, kind, name=str(kname))
+    return DFrame(cols, n0 if n0 is not None else 0)
+
+
+def _install_pandas():
+    import pandas as pd
+
+    M.EXTRA_MODELS[pd.DataFrame.from_dict] = _df_from_dict
+
+
+_install_pandas()
+
+
+# ---------------------------------------------------------------------------
 def file_handle(S, name="fh"):
     def close(eng, recv, args, kwargs):
         eng.ghost.setdefault("closed", []).append(recv.z)
         return None
 
     return S.opaque({"close": close}, name=name)
+
+
+def is_row(n_extra, s):
+    return RE_HIT(tag("search", ref_row_pattern(n_extra)), s)
+
+
+def is_comment(n_extra, s):
+    """a comment line: not a data row (the row test comes first) and `^\\s*#` matches"""
+    return z3.And(z3.Not(is_row(n_extra, s)), RE_HIT(tag("match", REF_COMMENT), s))
+
+
+def comment_text(s):
+    """the line minus the matched `\\s*#` prefix minus one trailing newline"""
+    return RMSUF(DROP(s, LEN(GRP(tag("match", REF_COMMENT), s, 0))), z3.StringVal("\n"))
+
+
+def header_text(names):
+    """what is left of the column-header line the WRITER emits ("# id type x y z r pid[ extras]\\n") after the '#'"""
+    return " " + " ".join(names.cols())
+
+
+def kept_comment(n_extra, names, s):
+    return z3.And(is_comment(n_extra, s), z3.Not(STARTS(comment_text(s), z3.StringVal(header_text(names)))))
+
+
+def conv_ok(n_extra, s):
+    """every field of a row line converts"""
+    t = tag("search", ref_row_pattern(n_extra))
+    return z3.And(*[(INT_OK if c in (0, 1, 6) else FLT_OK)(GRP(t, s, c + 1)) for c in range(7 + n_extra)])
+
+
+def field(n_extra, s, c):
+    t = tag("search", ref_row_pattern(n_extra))
+    g = GRP(t, s, c + 1)
+    return INT_OF(g) if c in (0, 1, 6) else FLT_OF(g)
+
+
+def line_ok(n_extra, f, k):
+    s = LINE(f, k)
+    return z3.And(z3.Not(DECERR(f, k)),
+                  z3.Or(z3.And(is_row(n_extra, s), conv_ok(n_extra, s)), is_comment(n_extra, s), z3.And(z3.Not(is_row(n_extra, s)), IS_BLANK(s))))
+
+
+def ghost_axioms(E, f, n_extra, names):
+    """definitions of the ghost counters (primitive recursion over the line index) and of the enumerations of row /
+    kept-comment lines (inverse of the strictly increasing counter on the lines it counts)"""
+    k = z3.Int(fresh_name("gk"))
+    row = lambda kk: is_row(n_extra, LINE(f, kk))
+    kept = lambda kk: kept_comment(n_extra, names, LINE(f, kk))
+    E.assume(NL(f) >= 0)
+    for CNT, ENUM, pred in ((RCNT, RLINE, row), (CCNT, CLINE, kept)):
+        E.assume(CNT(f, 0) == 0)
+        E.assume(z3.ForAll([k], z3.Implies(k >= 0, CNT(f, k + 1) == CNT(f, k) + z3.If(pred(k), 1, 0)), patterns=[CNT(f, k + 1)]))
+        E.assume(z3.ForAll([k], z3.Implies(k >= 0, z3.And(CNT(f, k) >= 0, CNT(f, k) <= k)), patterns=[CNT(f, k)]))
+        E.assume(z3.ForAll([k], z3.Implies(z3.And(k >= 0, pred(k)), ENUM(f, CNT(f, k)) == k), patterns=[CNT(f, k)]))
+    E.assumptions.add("ghost definition: rows_before/comments_before(f, k) = number of row / kept-comment lines among the first k lines; "
+                      "row_line/comment_line(f, j) = index of the j-th such line")
+
+
+def source_id(reader):
+    """the abstract file behind a FileReader object"""
+    for fld in ("f", "fb", "fname"):
+        v = reader.fields.get(fld)
+        if isinstance(v, (Opaque, Sym)):
+            return v.z
+    raise Unsupported("FileReader without an abstract source")
+
+
+def lines_of(S, fr):
+    """assumed contract of FileReader.__enter__: a text handle iterating the lines of the source; reading line k
+    raises UnicodeDecodeError when the bytes do not decode"""
+    f = source_id(fr.vars["self"])
+
+    def it(eng, recv):
+        def getter(k):
+            if eng.branch(eng.sbool(DECERR(f, k.z))):
+                raise ProgExc(UnicodeDecodeError, "codec can't decode")
+            return AStr(LINE(f, k.z))
+
+        eng.assume(NL(f) >= 0)
+        eng.assumptions.add("io-model: iterating the text handle delivers line(f, 0..n_lines(f)-1) in order; delivering line k may instead raise UnicodeDecodeError (decode_error_at(f, k))")
+        return NL(f), getter
+
+    h = S.opaque({"__iter_seq__": it}, name="text_handle")
+    h.src = f
+    return h
 
 
 def register(R: Registry):
@@ -28,6 +337,8 @@ def register(R: Registry):
         f = o["self"].fields["f"]
         if f is None:
             return True
+        if not (E.cur_key or "").endswith(":FileReader.__exit__"):
+            return CLOSED(f.z) if isinstance(f, Opaque) else True  # at a call site: an (unused) fact about a ghost predicate
         return any(z.eq(f.z) for z in E.ghost.get("closed", []))
 
     R.add(
@@ -46,3 +357,403 @@ def register(R: Registry):
             ("closes-the-handle", handle_closed),
         ],
     )
+
+    R.add(f"{FILE}:FileReader.__enter__", prop="C02", trusted=True, returns=lines_of, ensures=[],
+          notes="ASSUMED: the handle iterates the abstract line sequence of the reader's source (open / TextIOWrapper not modelled)")
+
+    register_parse(R)
+
+
+# ===========================================================================
+# parse_swc
+def _plen(p):
+    return zint(len(p.items)) if p.items is not None else zint(p.n)
+
+
+def register_parse(R):
+    from swcgeom.core.swc_utils import get_names
+
+    names = get_names()
+
+    def source(S, kind):
+        from io import BytesIO, TextIOBase
+
+        proto = {}
+        if kind == "text-stream":
+            proto = {"__isinstance__": (TextIOBase,), ".encoding": lambda eng, v: "utf-8"}
+        elif kind == "byte-stream":
+            proto = {"__isinstance__": (BytesIO,)}
+        return S.opaque(proto, "swc_file")
+
+    def parse_setup(extra, kind):
+        def f(S):
+            import swcgeom.core.swc_utils.io as io_mod
+
+            for g in list(vars(io_mod).values()):  # module-level compiled patterns (RE_COMMENT)
+                if isinstance(g, re.Pattern):
+                    _register_pattern(g)
+            src = source(S, kind)
+            return dict(fname=src, names=names, extra_cols=PList(list(extra)) if extra else None, encoding="utf-8", g_extra=list(extra or []))
+
+        return f
+
+    def ctx(v):
+        return v["fname"].z, len(v["g_extra"])
+
+    def axioms(E, fr):
+        ghost_axioms(E, fr.vars["fname"].z, len(fr.vars["g_extra"]), names)
+
+    def declare_element_types(E, v, o):
+        # type annotation for the loop cut: vals[c] is a list of ints (id, type, pid) or of floats
+        for c, lst in enumerate(v["vals"].items):
+            lst.hint = "int" if c in (0, 1, 6) else "real"
+        return True
+
+    def K(v):
+        return to_z3(v["_k0"], "int")
+
+    def inv_equal(E, v, o):
+        f, ne = ctx(v)
+        return z3.And(*[_plen(p) == RCNT(f, K(v)) for p in v["vals"].items])
+
+    def inv_fields(E, v, o):
+        f, ne = ctx(v)
+        out = []
+        for c, p in enumerate(v["vals"].items):
+            if p.items is not None:
+                if p.items:
+                    return False
+                continue
+            j = z3.Int(fresh_name("j"))
+            out.append(z3.ForAll([j], z3.Implies(z3.And(j >= 0, j < zint(p.n)), z3.Select(p.cols[0], j) == field(ne, LINE(f, RLINE(f, j)), c))))
+        return z3.And(*out) if out else True
+
+    def comments_are(f, ne, p, upto):
+        if p.items is not None:
+            if p.items:
+                return False
+            return CCNT(f, upto) == 0
+        j = z3.Int(fresh_name("j"))
+        return z3.And(zint(p.n) == CCNT(f, upto),
+                      z3.ForAll([j], z3.Implies(z3.And(j >= 0, j < zint(p.n)), z3.Select(p.cols[0], j) == comment_text(LINE(f, CLINE(f, j))))))
+
+    def inv_comments(E, v, o):
+        f, ne = ctx(v)
+        return comments_are(f, ne, v["comments"], K(v))
+
+    def inv_consumed(E, v, o):
+        f, ne = ctx(v)
+        j = z3.Int(fresh_name("j"))
+        return z3.ForAll([j], z3.Implies(z3.And(j >= 0, j < K(v)), line_ok(ne, f, j)))
+
+    def post_count(E, v, o):
+        f, ne = ctx(v)
+        df, _ = v["result"]
+        return z3.And(list(df.cols) == names.cols() + v["g_extra"], zint(df.n) == RCNT(f, NL(f)))
+
+    def post_fields(E, v, o):
+        f, ne = ctx(v)
+        df, _ = v["result"]
+        out = []
+        for c, key in enumerate(names.cols() + v["g_extra"]):
+            if key not in df.cols:
+                return False
+            a = df.cols[key]
+            j = z3.Int(fresh_name("j"))
+            out.append(z3.ForAll([j], z3.Implies(z3.And(j >= 0, j < zint(df.n)), z3.Select(a.arr, j) == field(ne, LINE(f, RLINE(f, j)), c))))
+        return z3.And(*out)
+
+    def post_comments(E, v, o):
+        f, ne = ctx(v)
+        _, cm = v["result"]
+        return comments_are(f, ne, cm, NL(f))
+
+    def post_consumed(E, v, o):
+        f, ne = ctx(v)
+        j = z3.Int(fresh_name("j"))
+        return z3.ForAll([j], z3.Implies(z3.And(j >= 0, j < NL(f)), line_ok(ne, f, j)))
+
+    def may_raise(E, v, o):
+        f, ne = ctx(v)
+        j = z3.Int(fresh_name("j"))
+        return z3.Exists([j], z3.And(j >= 0, j < NL(f), z3.Not(line_ok(ne, f, j))))
+
+    def parse_result(S, fr):
+        extra = fr.vars.get("extra_cols")
+        extra = list(extra.items) if isinstance(extra, PList) and extra.items else []
+        cols = {c: ("int" if j in (0, 1, 6) else "real") for j, c in enumerate(names.cols() + extra)}
+        from pyvc.values import snapshot
+
+        df, cm = S.dframe(cols, name="parsed"), S.plist("ref", name="comments")
+        S.eng.ghost.setdefault("parsed", []).append(dict(df=df, comments=cm, df0=snapshot(df), comments0=snapshot(cm)))
+        return (df, cm)
+
+    def at_site(v):
+        # at a call site (read_swc) the extra-column list is taken from the argument
+        if "g_extra" not in v:
+            e = v.get("extra_cols")
+            v["g_extra"] = list(e.items) if isinstance(e, PList) and e.items else []
+        return v
+
+    def wrap(fn):
+        return lambda E, v, o: fn(E, at_site(v), o)
+
+    R.add(
+        f"{IO}:parse_swc",
+        prop="C02",
+        variants={
+            "path": parse_setup(None, "path"),
+            "path+one-extra-column": parse_setup(["e"], "path"),
+            "byte-stream": parse_setup(None, "byte-stream"),
+            "text-stream": parse_setup(None, "text-stream"),
+        },
+        lemmas=[axioms],
+        returns=parse_result,
+        raises={"ValueError": ("only-when-some-line-is-bad-or-undecodable", wrap(may_raise))},
+        ensures=[
+            ("one-table-entry-per-row-line", wrap(post_count)),
+            ("every-field-is-the-conversion-of-its-group-in-file-order", wrap(post_fields)),
+            ("comments-are-the-comment-lines-minus-the-column-header-in-order", wrap(post_comments)),
+            ("every-line-was-read-and-is-a-row-a-comment-or-blank", wrap(post_consumed)),
+        ],
+        loops={0: dict(
+            invariant=[("columns-equally-filled-one-entry-per-row-line-so-far", inv_equal),
+                       ("fields-are-the-conversions-of-the-row-groups", inv_fields),
+                       ("comments-so-far", inv_comments),
+                       ("lines-so-far-read-and-classified", inv_consumed)],
+            types={"comments": "ref"})},
+        options=dict(asserts_after={"vals": [("element-types-declared", declare_element_types)]}),
+        notes="number of lines, every line, every token and every converted value symbolic/abstract; the inner loop over the "
+              "seven (eight) conversions is unrolled; source kinds path / byte stream / text stream and 0/1 extra column as variants",
+    )
+
+
+# ===========================================================================
+# read_swc (dispatch) and Tree.from_swc (error wrapping)
+def register_read(R):
+    from pyvc.values import snapshot
+    from swcgeom.core.swc_utils import get_names
+
+    names = get_names()
+    NCOLS = names.cols()
+
+    # callees that are not under a verified contract are replaced, FOR THIS CARRIER ONLY (globals_override, nothing is
+    # registered for other properties), by assumed stand-ins: they may rewrite the table's contents (never its number
+    # of rows / its columns), are logged, and do nothing else
+    def stand_in(name, rewrites_df=False, keeps_root=False, returns_bool=False):
+        from pyvc.loops import havoc_value
+        from pyvc.values import Callback, fresh
+
+        def model(eng, args, kwargs):
+            eng.assumptions.add(f"assumed-contract(local to read_swc): {name} " + ("rewrites only the contents of df" if rewrites_df else "is pure")
+                                + (" and keeps a root" if keeps_root else ""))
+            df = args[0]
+            eng.call_log.append((name, dict(df=df)))
+            if rewrites_df:
+                havoc_value(eng, df)
+            if keeps_root:
+                pid = df.cols[names.pid]
+                i = z3.Int(fresh_name("i"))
+                eng.assume(z3.Exists([i], z3.And(i >= 0, i < zint(df.n), z3.Select(pid.arr, i) == -1)))
+            return fresh("bool", name) if returns_bool else None
+
+        return Callback(name, model)
+
+    STAND_INS = {
+        "sort_nodes_": stand_in("sort_nodes_", rewrites_df=True),  # C05 owns its functional contract
+        "link_roots_to_nearest_": stand_in("link_roots_to_nearest_", rewrites_df=True, keeps_root=True),  # C18 bounded stand-in
+        "is_single_root": stand_in("is_single_root", returns_bool=True),  # only feeds a warning
+    }
+
+    def read_setup(fix_roots, sort_nodes, reset_index):
+        def f(S):
+            src = S.opaque({}, "swc_file")
+            return dict(swc_file=src, extra_cols=None, fix_roots=fix_roots, sort_nodes=sort_nodes, reset_index=reset_index,
+                        encoding="utf-8", names=None)
+
+        return f
+
+    def axioms(E, fr):
+        ghost_axioms(E, fr.vars["swc_file"].z, 0, names)
+
+    def rows(f):
+        return RCNT(f, NL(f))
+
+    def pre_root(E, v, o):
+        f = v["swc_file"].z
+        j = z3.Int(fresh_name("j"))
+        return z3.Exists([j], z3.And(j >= 0, j < rows(f), field(0, LINE(f, RLINE(f, j)), 6) == -1))
+
+    def pre_ids(E, v, o):
+        f = v["swc_file"].z
+        j = z3.Int(fresh_name("j"))
+        return z3.ForAll([j], z3.Implies(z3.And(j >= 0, j < rows(f)), field(0, LINE(f, RLINE(f, j)), 0) >= 0))
+
+    def calls(E, name):
+        return [a for nm, a in E.call_log if nm == name]
+
+    def parsed(E):
+        ps = E.ghost.get("parsed", [])
+        return ps[0] if len(ps) == 1 else None
+
+    def post_same_objects(E, v, o):
+        p = parsed(E)
+        if p is None or len(calls(E, "parse_swc")) != 1:
+            return False
+        a = calls(E, "parse_swc")[0]
+        df, cm = v["result"]
+        ok = df is p["df"] and cm is p["comments"] and a["fname"] is o["swc_file"] and a["extra_cols"] is None and a["encoding"] == "utf-8"
+        if not ok:
+            return False
+        c0 = p["comments0"]
+        return z3.And(zint(cm.n) == zint(c0.n), cm.cols[0] == c0.cols[0])  # the comment list is returned untouched
+
+    def post_repair(E, v, o):
+        fr_ = o["fix_roots"]
+        nm, nl = len(calls(E, "mark_roots_as_somas_")), len(calls(E, "link_roots_to_nearest_"))
+        cnts = [g for k_, g in E.ghost.items() if isinstance(k_, tuple) and k_ and k_[0] == "cnt"]
+        if fr_ is False:
+            return nm == 0 and nl == 0 and not cnts
+        p = parsed(E)
+        if p is None or len(cnts) != 1:
+            return False
+        # the count the dispatch is based on is the number of parsed rows whose parent is -1
+        cnt, pid0 = cnts[0], p["df0"].cols[names.pid]
+        i = z3.Int(fresh_name("i"))
+        is_root_count = z3.And(cnt(0) == 0, z3.ForAll([i], z3.Implies(i >= 0, cnt(i + 1) == cnt(i) + z3.If(z3.Select(pid0.arr, i) == -1, 1, 0))))
+        several = cnt(zint(p["df0"].n)) > 1
+        want_m = 1 if fr_ == "somas" else 0
+        want_l = 1 if fr_ == "nearest" else 0
+        if nm > 1 or nl > 1 or nm > want_m or nl > want_l:
+            return False
+        for a in calls(E, "mark_roots_as_somas_") + calls(E, "link_roots_to_nearest_"):
+            if a["df"] is not p["df"]:
+                return False
+        return z3.And(is_root_count, several == z3.BoolVal(nm + nl == 1) if fr_ in ("somas", "nearest") else z3.BoolVal(nm + nl == 0))
+
+    def post_renumber(E, v, o):
+        p = parsed(E)
+        ns, nr = calls(E, "sort_nodes_"), calls(E, "reset_index_")
+        want_s = 1 if o["sort_nodes"] else 0
+        want_r = 1 if (not o["sort_nodes"] and o["reset_index"]) else 0
+        if p is None or len(ns) != want_s or len(nr) != want_r:
+            return False
+        return all(a["df"] is p["df"] for a in ns + nr)
+
+    def post_nothing_else(E, v, o):
+        allowed = {"parse_swc", "mark_roots_as_somas_", "link_roots_to_nearest_", "sort_nodes_", "reset_index_", "is_single_root"}
+        return all(nm in allowed for nm, _ in E.call_log) and len(calls(E, "is_single_root")) == 1
+
+    def post_attributes(E, v, o):
+        """without root repair / sorting the node attributes are exactly what the rows say (ids only re-based)"""
+        p = parsed(E)
+        if p is None:
+            return False
+        if o["sort_nodes"] or calls(E, "mark_roots_as_somas_") or calls(E, "link_roots_to_nearest_"):
+            return True
+        df, _ = v["result"]
+        keep = NCOLS if not o["reset_index"] else [c for c in NCOLS if c not in (names.id, names.pid)]
+        f = o["swc_file"].z
+        out = [zint(df.n) == rows(f)]
+        for c in keep:
+            j = z3.Int(fresh_name("j"))
+            out.append(z3.ForAll([j], z3.Implies(z3.And(j >= 0, j < zint(df.n)), z3.Select(df.cols[c].arr, j) == field(0, LINE(f, RLINE(f, j)), NCOLS.index(c)))))
+        return z3.And(*out)
+
+    def may_raise(E, v, o):
+        f = v["swc_file"].z
+        j = z3.Int(fresh_name("j"))
+        bad_line = z3.Exists([j], z3.And(j >= 0, j < NL(f), z3.Not(line_ok(0, f, j))))
+        return z3.Or(bad_line, z3.BoolVal(v["fix_roots"] not in (False, "somas", "nearest")))
+
+    def read_result(S, fr):
+        cols = {c: ("int" if j in (0, 1, 6) else "real") for j, c in enumerate(NCOLS)}
+        df, cm = S.dframe(cols, name="table"), S.plist("ref", name="comments")
+        S.eng.ghost.setdefault("read", []).append(dict(df=df, comments=cm))
+        return (df, cm)
+
+    def site(fn):
+        # at a call site (Tree.from_swc) the effect clauses about read_swc's own execution say nothing
+        return lambda E, v, o: True if (E.cur_key or "").endswith("from_swc") else fn(E, v, o)
+
+    variants = {}
+    for fx in (False, "somas", "nearest", "bogus"):
+        for sn in (False, True):
+            for ri in (True, False):
+                variants[f"fix_roots={fx},sort_nodes={sn},reset_index={ri}"] = read_setup(fx, sn, ri)
+
+    R.add(
+        f"{IO}:read_swc",
+        prop="C02",
+        variants=variants,
+        lemmas=[axioms],
+        options=dict(globals_override=STAND_INS),
+        returns=read_result,
+        requires=[("file-has-a-root-row", pre_root), ("row-ids-are-unsigned(regex fact: the id group is [0-9]+)", pre_ids)],
+        raises={"ValueError": ("only-for-a-bad-file-or-an-unknown-fix-mode", may_raise),
+                # at call sites: the file may also be unreadable (open() fails) -- never raised by the modelled body itself
+                "OSError": ("unreadable-source", lambda E, v, o: UNREADABLE(v["swc_file"].z))},
+        ensures=[
+            ("returns-the-parsed-table-and-the-untouched-comment-list", site(post_same_objects)),
+            ("root-repair-only-with-several-roots-and-only-the-requested-one", site(post_repair)),
+            ("sort-nodes-else-reset-index-else-neither", site(post_renumber)),
+            ("no-other-call-touches-the-table(warnings-only-warn)", site(post_nothing_else)),
+            ("attributes-are-what-the-rows-say", site(post_attributes)),
+        ],
+        notes="file abstract (see parse_swc); all 16 combinations of fix_roots x sort_nodes x reset_index as variants; "
+              "precondition: the file has a row whose parent is -1 (reset_index_/mark_roots_as_somas_ need a root)",
+    )
+
+    # ------------------------------------------------------------ Tree.from_swc
+    # NOTE on the key: contracts/C19.py registers an ASSUMED contract under the natural key "…:Tree.from_swc" (its
+    # population carriers call it modularly).  The registry holds one contract per key, so the VERIFIED contract of
+    # the same function is registered under an alias that resolves to the same source (extract skips "<locals>").
+    FROM_SWC = f"{TREE}:Tree.<locals>.from_swc"
+
+    def builder(S):
+        """stand-in for `cls`: a class whose from_data_frame is abstract (Tree.__init__/padding are C03/C09 matter)"""
+        def from_data_frame(eng, recv, args, kwargs):
+            eng.assumptions.add("assumed(local to Tree.from_swc): cls.from_data_frame is abstract; its call is logged")
+            eng.ghost.setdefault("built", []).append(dict(args=list(args), kwargs=dict(kwargs)))
+            return Opaque(z3.Const(fresh_name("tree"), _I), {})
+
+        return S.opaque({"from_data_frame": from_data_frame}, "cls")
+
+    def from_setup(S):
+        return dict(cls=builder(S), swc_file=S.opaque({}, "swc_file"))
+
+    def bad_source(v):
+        f = v["swc_file"].z
+        j = z3.Int(fresh_name("j"))
+        return z3.Or(z3.Exists([j], z3.And(j >= 0, j < NL(f), z3.Not(line_ok(0, f, j)))), UNREADABLE(f))
+
+    def from_built(E, v, o):
+        rd, built = E.ghost.get("read", []), E.ghost.get("built", [])
+        cs = calls(E, "read_swc")
+        if len(rd) != 1 or len(built) != 1 or len(cs) != 1 or cs[0]["swc_file"] is not o["swc_file"]:
+            return False
+        b = built[0]
+        return (len(b["args"]) == 1 and b["args"][0] is rd[0]["df"] and b["kwargs"].get("comments") is rd[0]["comments"]
+                and b["kwargs"].get("source") == "" and set(b["kwargs"]) == {"source", "comments"})
+
+    R.add(
+        FROM_SWC,
+        prop="C02",
+        setup=from_setup,
+        requires=[("file-has-a-root-row", pre_root), ("row-ids-are-unsigned(regex fact: the id group is [0-9]+)", pre_ids)],
+        raises={"ValueError": ("only-when-the-source-is-bad-or-unreadable", lambda E, v, o: bad_source(v))},
+        ensures=[
+            ("a-tree-is-returned-only-for-a-clean-readable-source(no-error-swallowed)", lambda E, v, o: z3.Not(bad_source(v))),
+            ("tree-is-built-from-exactly-the-table-and-comments-read", from_built),
+            ("something-is-returned", lambda E, v, o: v["result"] is not None),
+        ],
+        notes="any exception class read_swc may raise (ValueError for a bad file, OSError for an unreadable one) must leave as ValueError",
+    )
+
+
+_register_0 = register
+
+
+def register(R):  # noqa: F811
+    _register_0(R)
+    register_read(R)
